@@ -142,6 +142,23 @@ class Driver:
         except Exception:
             return ['X', len(data)]
 
+    def payload_op(self, op):
+        """what the payload / the user does to the sandboxes besides writing files"""
+        p = os.path.join(self.root, sbox_rel(op[1]), op[2]).rstrip('/')
+        assert p.startswith(self.root + '/') and p != self.root
+        if op[0] == 'rm':
+            if os.path.isdir(p):
+                shutil.rmtree(p)
+            elif os.path.exists(p):
+                os.remove(p)
+        elif op[0] == 'mv':
+            q = os.path.join(self.root, sbox_rel(op[3]), op[4]).rstrip('/')
+            if os.path.exists(p) and not os.path.exists(q) and os.path.isdir(os.path.dirname(q)) \
+                    and not (q + '/').startswith(p + '/'):
+                os.rename(p, q)
+        else:
+            raise ValueError(op)
+
     def write(self, sandbox, rel, cid, age=3600):
         """the data exist for a while when staging starts: a target staged a moment ago is newer"""
         import time
@@ -205,11 +222,16 @@ class Driver:
         rec = Recorder()
         escaped = []
 
+        # ONE instance of every component (and of its staging helper) handles all bulks of the case
+        comps = {}
+
         def work(kind, bulk):
             """BaseComponent.work_cb: an exception escaping `work` fails the whole bulk"""
             if not bulk:
                 return
-            comp = self.component(kind, rec)
+            if kind not in comps:
+                comps[kind] = self.component(kind, rec)
+            comp = comps[kind]
             try:
                 comp.work(bulk)
             except Exception as e:
@@ -229,6 +251,8 @@ class Driver:
                 os.makedirs(task['task_sandbox_path'], exist_ok=True)
                 for rel, cid in t.get('exec', []):
                     self.write(task['uid'], rel, cid, age=600)
+                for op in t.get('ops', []):
+                    self.payload_op(op)
                 task['target_state'] = t['outcome']
                 task['state'] = rps.AGENT_STAGING_OUTPUT_PENDING
             work('aso', stage)
